@@ -7,6 +7,7 @@ Translates the name-validation code of src/desc.rs to Lean definitions over `Cha
       c.is_ascii_alphabetic()  c.is_ascii_digit()  c.is_ascii_alphanumeric()
       c.is_ascii_uppercase()   c.is_ascii_lowercase()
       c == 'x' (a char literal, escapes included)   OTHER(c) (another such function)
+      matches!(c, 'a'..='z' | '_' | ...) (char literals and inclusive char ranges)
       ||   &&   !   ( )
     becomes `def NAME (c : Char) : Bool := ...` with explicit code-point range tests;
   * the shape of `is_valid_ident` (empty input: false; first character: the `if` condition
@@ -269,6 +270,33 @@ class ExprParser:
             return ty, e
         if k == 'chr':
             return 'lit', char_value(v)
+        if k == 'id' and v == 'matches' and self.peek()[1] == '!':
+            # matches!(c, 'a'..='z' | 'A'..='Z' | '_'): alternatives of char literals and inclusive char ranges
+            self.eat('!'); self.eat('(')
+            k2, a = self.eat()
+            if a != self.var:
+                raise Unknown('matches!(%s, ..): the scrutinee is not the character' % a)
+            self.eat(',')
+            rs = []
+            while True:
+                k3, lo = self.eat()
+                if k3 != 'chr':
+                    raise Unknown('matches!: pattern `%s` is not a char literal or an inclusive char range' % lo)
+                lo_v = char_value(lo); hi_v = lo_v
+                if self.peek()[1] == '..':
+                    self.eat('..'); self.eat('=')
+                    k4, hi = self.eat()
+                    if k4 != 'chr':
+                        raise Unknown('matches!: range end `%s` is not a char literal' % hi)
+                    hi_v = char_value(hi)
+                rs.append((lo_v, hi_v))
+                if self.peek()[1] == '|':
+                    self.eat('|'); continue
+                break
+            if self.peek()[1] == ',':
+                self.eat(',')
+            self.eat(')')
+            return 'bool', ranges(rs)
         if k == 'id' and self.peek()[1] == '(':
             self.eat('(')
             k2, a = self.eat()
